@@ -29,7 +29,7 @@ DRIVERS = ["x04"]
 RULE = ("(A) layouts = (rows, cols, window, interval or grids, subpix, measure in sad/ssd/census/zncc, left/right masks over "
         "{valid, no-data, masked}); random layouts, layouts SMALLER than the window (rows or cols < window, window 3/5, "
         "every measure), plus 1-row layouts enumerated exhaustively (thorough: both "
-        "masks x all intervals within [-3,3] x window {1,3} up to width 4, one mask exhaustive against sampled "
+        "masks x all intervals within [-3,3] x window {1,3} up to width 3, one mask exhaustive against sampled "
         "other masks up to width 7; quick: sampled); a layout is non-trivial when some pixel carries a flag "
         "other than 0 and the border value; distinct by full content. (B) pipelines = random legal words "
         "MC (A|C)* D (F|R|V)* with repeated refinement / filter / validation steps and interpolation, run on "
@@ -265,7 +265,7 @@ def gen_one_row_layouts(ctx):
         ctx.stats["one_row_mode"] = "sampled (quick)"
     else:
         n_ex = 0
-        for width in range(1, 5):
+        for width in range(1, 4):
             rows_ = all_rows(width)
             for w in (1, 3):
                 for lrow in rows_:
@@ -273,7 +273,7 @@ def gen_one_row_layouts(ctx):
                         for iv in INTERVALS:
                             out.append(one_row_layout(lrow, rrow, w, *iv))
                             n_ex += 1
-        for width in range(5, 8):
+        for width in range(4, 8):
             rows_ = all_rows(width)
             for w in (1, 3):
                 for row in rows_:
@@ -281,8 +281,8 @@ def gen_one_row_layouts(ctx):
                         other = [rng.choice([0, 0, 1, 2]) for _ in range(width)]
                         out.append(one_row_layout(row, other, w, *rng.choice(INTERVALS)))
                         out.append(one_row_layout(other, row, w, *rng.choice(INTERVALS)))
-        ctx.stats["one_row_mode"] = (f"exhaustive both masks x 28 intervals x window {{1,3}} for width <= 4 "
-                                     f"({n_ex} layouts); width 5-7: each mask exhaustive against sampled other masks")
+        ctx.stats["one_row_mode"] = (f"exhaustive both masks x 28 intervals x window {{1,3}} for width <= 3 "
+                                     f"({n_ex} layouts); width 4-7: each mask exhaustive against sampled other masks")
     return out
 
 
